@@ -2,9 +2,11 @@
     — an [Err] carries no state, so the caller keeps the old one: that the model is atomic is a property of its type,
     and the error kinds are a closed enumeration without Python-internal exceptions.  What needs proof is that the
     allocator (the one primitive that mutates shared state before later steps can fail) is all-or-nothing and refuses
-    exactly when space is lacking. *)
+    exactly when space is lacking; and that the fixed root region of FAT12/16 refuses exactly when the serialised entries — 32
+    bytes per SLOT, long-name slots included — do not fit, and otherwise writes exactly the region, never behind it
+    (C09_root_full_refused, C09_root_rewrite_exact; the C01-m5 / C09-m5 mutations counted entries instead of slots). *)
 From Coq Require Import ZArith List Bool.
-From PyFatV Require Import Base.Bytes Base.PyEnv Gen.Pure Model.Codec Model.Dir Model.FS Proofs.FatTable Proofs.Session.
+From PyFatV Require Import Base.Bytes Base.PyEnv Gen.Pure Model.Codec Model.Dir Model.FS Proofs.FatTable Proofs.Session Proofs.DirState.
 Import ListNotations.
 Open Scope Z_scope.
 
@@ -27,3 +29,14 @@ Theorem C09_readonly : forall s, s_ro s = true ->
   (forall loc es, write_dir s loc es = Err EROFS) /\ write_bpb s = Err EROFS.
 Proof. exact ro_primitives_refuse. Qed.
 Print Assumptions C09_readonly.
+
+Theorem C09_root_full_refused : forall s loc es, is_root_fixed s loc = true -> s_ro s = false ->
+  root_dir_sectors (s_p s) * bps s < lenZ (ser_dir es) -> write_dir s loc es = Err ENOSPC.
+Proof. exact root_rewrite_refused. Qed.
+Print Assumptions C09_root_full_refused.
+Theorem C09_root_rewrite_exact : forall s loc es s', is_root_fixed s loc = true -> write_dir s loc es = Ok s' ->
+  let sz := root_dir_sectors (s_p s) * bps s in
+  lenZ (ser_dir es) <= sz /\
+  exists data, s_log s' = (root_addr s, data) :: s_log s /\ lenZ data = sz /\ firstn (length (ser_dir es)) data = ser_dir es.
+Proof. exact root_rewrite_exact. Qed.
+Print Assumptions C09_root_rewrite_exact.
